@@ -623,6 +623,7 @@ func runC01(c *Ctx) {
 	m.ruleCloneTree(c)
 	c.rule("R-REBUILD-USED", 2, "the subtree returned by the in-place rebuild replaces the subtree that was handed to it (returned to the caller or stored in a link), never dropped")
 	m.ruleRebuildUsed(c)
+	m.ruleRebuildEmpty(c)
 	m.ruleLinkEdits(c)
 	m.ruleReadOnly(c)
 	m.ruleTreeAccessors(c)
@@ -2775,4 +2776,123 @@ func (m *streeModel) successorPop() *ssa.Function {
 		}
 	})
 	return found
+}
+
+// ---- R-REBUILD-EMPTY: the in-place rebuild tolerates an empty subtree.  Tree.Remove rebuilds the whole tree when
+// the count falls under the shrink bound, and does so with a nil root once the last key is gone (for balance
+// factors where the bound of an empty tree is still positive).  So the subtree parameter of the rebuild — and of
+// every helper it hands that parameter, or a helper's result, to — must not be dereferenced except under a test
+// that it is not nil.  (Today's code never dereferences it: it hangs it under a sentinel node first.)
+func (m *streeModel) ruleRebuildEmpty(c *Ctx) {
+	c.rule("R-REBUILD-EMPTY", 1, "the subtree argument of the in-place rebuild (and of the helpers it is handed on to) is dereferenced only under a != nil test")
+	rw := streeRebuild(c.P)
+	if rw == nil || len(rw.Params) == 0 {
+		c.undecided("ANCHOR", "stree rebuild", 0, "not found")
+		return
+	}
+	// premise: some call site hands the rebuild a subtree not known to be non-nil (Remove: the root after a removal)
+	var nilSite *ssa.Call
+	for _, f := range c.P.PkgFuncs("stree") {
+		allInstrs(f, func(in ssa.Instruction) {
+			call, ok := in.(*ssa.Call)
+			if !ok || origin(staticCallee(&call.Call)) != rw || len(call.Call.Args) == 0 || nilSite != nil {
+				return
+			}
+			a := call.Call.Args[0]
+			known := false
+			for _, cm := range cmpsAt(call.Block()) {
+				if cm.Op == token.NEQ && isNilConst(cm.Y) && (cm.X == a || sym(cm.X) == sym(a)) {
+					known = true
+				}
+			}
+			if al, ok := a.(*ssa.Alloc); ok && al.Heap {
+				known = true
+			}
+			if !known {
+				nilSite = call
+			}
+		})
+	}
+	if nilSite == nil {
+		c.ok("R-REBUILD-EMPTY", fnName(rw)+":call sites", rw.Pos(), "every call site hands the rebuild a subtree known to be non-nil")
+		return
+	}
+	tainted := map[*ssa.Parameter]bool{rw.Params[0]: true}
+	fns := []*ssa.Function{rw}
+	seen := map[*ssa.Function]bool{rw: true}
+	mayBe := func(v ssa.Value) *ssa.Parameter {
+		if p, ok := v.(*ssa.Parameter); ok && tainted[p] {
+			return p
+		}
+		if ph, ok := v.(*ssa.Phi); ok {
+			for i, e := range ph.Edges {
+				if p, ok := e.(*ssa.Parameter); ok && tainted[p] && !ph.Block().Dominates(ph.Block().Preds[i]) {
+					return p
+				}
+			}
+		}
+		return nil
+	}
+	for i := 0; i < len(fns) && i < 16; i++ {
+		f := fns[i]
+		allInstrs(f, func(in ssa.Instruction) {
+			call, ok := in.(*ssa.Call)
+			if !ok {
+				return
+			}
+			g := origin(staticCallee(&call.Call))
+			if g == nil || g.Blocks == nil || g.Pkg != rw.Pkg || g.Signature.Recv() != nil {
+				return
+			}
+			for ai, a := range call.Call.Args {
+				if ai >= len(g.Params) || !isNamedOrigin(g.Params[ai].Type(), m.nodeT) {
+					continue
+				}
+				_, isP := a.(*ssa.Parameter)
+				fromHelper := false
+				if ac, ok := a.(*ssa.Call); ok {
+					if h := origin(staticCallee(&ac.Call)); h != nil && h.Pkg == rw.Pkg && seen[h] {
+						fromHelper = true
+					}
+				}
+				if (isP && tainted[a.(*ssa.Parameter)]) || fromHelper {
+					tainted[g.Params[ai]] = true
+					if !seen[g] {
+						seen[g] = true
+						fns = append(fns, g)
+					}
+				}
+			}
+		})
+	}
+	for _, f := range fns {
+		for _, p := range f.Params {
+			if !tainted[p] {
+				continue
+			}
+			c.sawFn(fnName(f))
+			var bad ssa.Instruction
+			allInstrs(f, func(in ssa.Instruction) {
+				fa, ok := in.(*ssa.FieldAddr)
+				if !ok || bad != nil || mayBe(fa.X) != p {
+					return
+				}
+				guarded := false
+				for _, cm := range cmpsAt(fa.Block()) {
+					if cm.Op == token.NEQ && isNilConst(cm.Y) && (cm.X == fa.X || cm.X == ssa.Value(p)) {
+						guarded = true
+					}
+				}
+				if !guarded {
+					bad = in
+				}
+			})
+			key := fnName(f) + ":subtree argument " + p.Name()
+			if bad != nil {
+				c.bad("R-REBUILD-EMPTY", key, bad.Pos(), fmt.Sprintf("%s dereferences its subtree argument without a nil test; Remove rebuilds the whole tree with a nil root once the last key is gone (count 0 under the shrink bound): a nil dereference", f.Name()))
+			} else {
+				c.ok("R-REBUILD-EMPTY", key, f.Pos(), "never dereferenced directly (or only under != nil)")
+			}
+		}
+	}
 }
